@@ -12,7 +12,14 @@ Part A (explicit-state, one BFS per model kind): the state is a *population* of 
     solution was computed with); the canonical key of a state is the sorted tuple of reference
     objects, so equivalent histories merge.
 
+    Every object also carries model-level settings (description, tolerance overrides); the linear model's alphabet
+    has override_tolerance and one initial object has a root at 1-1e-5 with the eigenvalue tolerance overridden to
+    1e-3, so that solve / filter after a clone depend on the setting having been carried over.
+
     Oracles on every transition
+      structure  flags, tolerance settings, names / kinds / log status, equations, max lag / lead, context keys of the
+                 acted-on object equal those of a fresh model with the same settings; clones equal their source;
+                 other objects unchanged;
       state      the acted-on object equals, variant by variant, a FRESH single-variant model built
                  from source and driven directly to that variant's reference state (differential
                  oracle; this is at the same time "variant k == single-variant model with variant
@@ -58,7 +65,7 @@ RULE = ("A: BFS over operation histories on a population of <= 3 model objects, 
 MANIFEST_ENTRY = dict(
     level="model_checking", design="DESIGN.md section 4 / C20",
     technique="explicit-state BFS over operation histories on a population of model objects vs a per-variant reference state, differential oracle against fresh models built from source, bit-exact isolation check, structural alias scan; exhaustive enumeration of a model grammar for the portable round trip",
-    text="For a linear Simultaneous model (lead, measurement equation with shock), a non-linear one (log variable), a Sequential and a RedVAR, every history of copy / pickle / dill / assign (scalar, per-variant list, std) / alter_num_variants(1..3) / steady / solve / set_description / estimate / assignment through model[k] up to depth 3 (quick) or 4-5 (thorough) from 2-4 prepared initial objects on a population of up to 3 objects is executed against the real classes; before and after every step every object is observed (parameters, steady levels and changes, solution matrices T P K Z H D, eigenvalues, a 4-period first-order simulation with an unanticipated and an anticipated shock, a 3-period Kalman likelihood); the acted-on object must equal fresh single-variant models driven to the reference state, clones must be observation-identical to their source, untouched objects bit-for-bit unchanged, and no dict / list / set / ndarray / instance __dict__ may be reachable from two members or two variants. The portable and binary file round trips are enumerated over 96 programs x 8 flag combinations x 3 (quick) or 6 (thorough) variant/steady settings.",
+    text="For a linear Simultaneous model (lead, measurement equation with shock), a non-linear one (log variable), a Sequential and a RedVAR, every history of copy / pickle / dill / assign (scalar, per-variant list, std) / alter_num_variants(1..3) / steady / solve / set_description / override_tolerance / estimate / assignment through model[k] up to depth 3 (quick) or 4-5 (thorough) from 2-4 prepared initial objects on a population of up to 3 objects is executed against the real classes; before and after every step every object is observed (flags, tolerance settings, names, equations, parameters, steady levels and changes, solution matrices T P K Z H D, eigenvalues and their stable/unit/unstable classification, a 4-period first-order simulation with an unanticipated and an anticipated shock, a 3-period Kalman likelihood); the acted-on object must equal fresh single-variant models driven to the reference state, clones must be observation-identical to their source, untouched objects bit-for-bit unchanged, and no dict / list / set / ndarray / instance __dict__ may be reachable from two members or two variants. The portable and binary file round trips are enumerated over 96 programs x 8 flag combinations x 3 (quick) or 6 (thorough) variant/steady settings.",
     note="Trusted: model construction from source (the oracle is differential), numpy, the reference state machine in props/c20.py. Not covered: user functions in the model context, stacked-time simulation, attributes of quantities/equations and steady levels in the portable form (not in the statement), isolation of model views (model[k] shares the variant object by design; recorded, not gated). Known findings: to_portable with a transition shock, from_portable flags, pickle of a Sequential, RedVAR.copy sharing its invariant and cached companion matrix.")
 ASSUMPTIONS = [
     "a model built from source and driven by assign/steady/solve is the specification of what a copy in the same reference state must compute (differential oracle)",
@@ -1155,12 +1162,12 @@ def run(ctx, total, info):
         "transitions_seq": (c["transitions_seq"], 1600 if q else 27000),
         "transitions_var": (c["transitions_var"], 1200 if q else 45000),
         "states": (states, 4000 if q else 75000),
-        "clones_checked": (sum(c["clones_checked_" + h] for h in CLONES), 1300 if q else 27000),
-        "alias_scans_between_members": (c["alias_scans_between_members"], 2400 if q else 54000),
-        "isolation_checks": (c["isolation_checks"], 7000 if q else 290000),
+        "clones_checked": (sum(c["clones_checked_" + h] for h in CLONES), 1900 if q else 27000),
+        "alias_scans_between_members": (c["alias_scans_between_members"], 3400 if q else 54000),
+        "isolation_checks": (c["isolation_checks"], 10000 if q else 290000),
         "view_assignments": (c["observed_view_assignment_writes_through"] + c["observed_view_assignment_is_detached"], 150 if q else 3500),
-        "portable_configurations_evaluated": (total.evaluations - ev0, 1100 if q else 2300),
-        "portable_round_trips_compared": (c["observed_levels_preserved"] + sum(v for k, v in c.items() if k.startswith("observed_levels_not")), 1100 if q else 2300),
+        "portable_configurations_evaluated": (total.evaluations - ev0, 1150 if q else 2300),
+        "portable_round_trips_compared": (c["observed_levels_preserved"] + sum(v for k, v in c.items() if k.startswith("observed_levels_not")), 2300 if q else 4600),
         "binary_file_round_trips": (c["binary_file_round_trips"], 1100 if q else 6900),
     }
 
